@@ -474,6 +474,9 @@ func compileForPhraseStmt(ctx *blockCtx, v *ast.ForPhraseStmt) {
 		names = append(names, v.Value.Name)
 		defineNames = append(defineNames, v.Value)
 	}
+	if v.Key == nil && v.Value != nil && v.Value.Name == "_" {
+		names = nil // for _ <- x: nothing is defined (`for _, _ := range x` is not valid Go)
+	}
 	cb.ForRange(names...)
 	compileExpr(ctx, v.X)
 	cb.RangeAssignThen(v.TokPos)
